@@ -44,6 +44,11 @@ CLAIMS = {
   text="Exploration: MergeNodes on independent and overlapping (edited/permuted copy) tree pairs, MergeNodes(t,t), the error contract, and MergeNodeSlices on list pairs with the equality, always-merge and never-merge functions. Oracles: every input node below the roots is represented by an equal node under an equal parent and every result node stems from input nodes; max(|l|,|r|) <= |result| <= |l|+|r| (= max / = sum for always / never); an instrumented merge function shows each element merged at most once and merged results never offered again; self-merge keeps the node count when no two siblings are equal; the result shares no node with the inputs, inputs are unchanged by the merge and by a later mutation of the result. One documented-behaviour finding class (C09-F1) is excluded and counted.",
   note="Trusted: 'equal' = Equals either way or same tag/value/pointer; the caller-identified roots are not required to be equal; merges go into a fresh target document.",
   design="6.9"),
+ "C11": dict(
+  technique="PBT (rapid) with validity oracle + differential Jobs=N vs Jobs=1 under a no-tie premise; race detector on generated cases in child processes (GOMAXPROCS x Jobs x repetitions); CLI under -race",
+  text="Exploration: generated pairs of individual lists (shared/disjoint pointers, shared/duplicated/malformed identifiers, renumbered and edited copies, identical twins, empty sides) x thresholds x Jobs {0,1,2,3,8,16}. Validity: every individual exactly once per side, no empty result, every pair justified by full weighted similarity, shared identifier or trusted pointer. Differential: identical pairs to the sequential run whenever the harness's own score matrix shows no tie and no duplicated identifier/pointer. Schedules: the same cases run in a -race build, one child process per case and GOMAXPROCS value (1/2/16), cold and warm caches, with repetitions; 'gedcom diff -jobs N' from a -race build must exit 0 without a race report and list every individual. Races are classified by their two innermost functions.",
+  note="The harness does not own the Go scheduler: race freedom and schedule independence are what was observed on the executed schedules, not established (DESIGN.md 6.21).",
+  design="6.11"),
  "C12": dict(
   technique="metamorphic PBT (rapid) + exhaustive string-pair enumeration: range, operand-swap symmetry, identity, monotonicity, shift invariance, neutral 0.5",
   text="Exploration: all ordered string pairs over {a,b} up to length 9 (thorough 10) and {a,b,c} up to 5 (6) are enumerated; random name pairs (punctuation, case, digits, other scripts; independent or edited copies) x boost/prefix parameters, random date triples (all shapes, keywords, ranges) x MaxYears, and pairs of random family graphs x default/random options (weights summing to 1) are generated. Oracles: every score in [0,1] and not NaN, f(a,b)=f(b,a) for strings, dates, individuals, lists, families and surrounding similarity, 1 on identical names/dates, date similarity monotone in |Years difference|, 0 beyond MaxYears, unchanged under a 400-year shift, exactly 0.5 for the documented missing-information cases and list padding.",
